@@ -2,6 +2,17 @@
 HOOK_COMMITS = []
 NOT_APPLICABLE = {}
 LEVELS = {
+    "C14": {
+        "text": "Proof: C14_roundtrip — decode(encode(e)) = e for every well-formed event of all eight types (all uint64 including 0 and "
+                "2^64-1, empty and repeated address lists, empty byte strings, zero big integers), built from machine-checked round-trips "
+                "of the decimal, 0x-hex and comma-list codecs; C14_uint_strict, C14_expect_length, C14_names_checked for the error side. "
+                "Library pieces that need keccak or curve arithmetic (EIP-55 casing, key and G2 point encodings) are oracles with stated "
+                "laws. The model is tied to the code by differential runs in both directions and on mutated events; malformed data must "
+                "be rejected by both or read identically by both, and the real decoder runs under recover().",
+        "design_ref": "DESIGN.md §4 C14",
+        "note": "Trusted: Lean kernel; correspondence harness; my reading of strconv/hexutil/strings semantics (checked differentially); oracle laws for EIP-55, secp256k1, BLS12-381 encodings.",
+        "technique": "Lean 4 round-trip theorems for the string codecs + differential correspondence with MakeABCIEvent/MakeEvent on values and mutations",
+    },
     "C13": {
         "text": "Proof: C13_atomic_save — for all old/new encodings and every crash point (any prefix of create-tmp, write, fsync, rename; "
                 "any partial write; loss of un-synced data) the final path shows exactly the old or exactly the complete new file; "
